@@ -3,11 +3,9 @@
   plain sub-documents are RFC 8259 documents, '/' is a syntax error at every gap position.
 -/
 import JsonC.Lemmas.TokenerXDoc4
+import JsonC.Lemmas.TokenerErrStop
 namespace JsonC.Tokener
 open JsonC Rfc8259 Rfc8259X
-
-/-- the loop stopped on a syntax error -/
-def ErrStop (e : LoopEnd) : Prop := ∃ pe, e.stop = .err pe
 
 theorem perr_toErr (pe : PErr) : pe.toErr ≠ .success ∧ pe.toErr ≠ .continue_ := by
   cases pe <;> simp [PErr.toErr]
@@ -81,7 +79,7 @@ theorem xmembers_plain_text (ms : List (Gap × Quote × List StrItem × Gap × G
   | cons m r ihr =>
     obtain ⟨g1, q, k, g2, g3, d, g4⟩ := m
     simp only [xmembersOk, xmembersPlain, Bool.and_eq_true, beq_iff_eq] at hok hp
-    obtain ⟨⟨⟨⟨⟨⟨p1, pq⟩, p2⟩, p3⟩, pd⟩, p4⟩, pr⟩ := hp
+    obtain ⟨⟨⟨⟨⟨⟨p1, pq, _⟩, p2⟩, p3⟩, pd⟩, p4⟩, pr⟩ := hp
     subst pq
     simp only [xmembersText, xmembersErase, membersText]
     rw [gap_plain_text g1 p1, gap_plain_text g2 p2, gap_plain_text g3 p3, gap_plain_text g4 p4,
@@ -101,8 +99,9 @@ theorem xdoc_plain_text : ∀ (x : XDoc), x.ok = true → x.plain = true → x.t
   | hnum n => intro _ _; rfl
   | hstr q items =>
     intro _ hp
-    simp only [XDoc.plain, beq_iff_eq] at hp
-    subst hp; rfl
+    simp only [XDoc.plain, Bool.and_eq_true, beq_iff_eq] at hp
+    obtain ⟨hq, _⟩ := hp
+    subst hq; rfl
   | harr g es tr ih =>
     intro hok hp
     cases es with
@@ -155,7 +154,7 @@ theorem xmembers_erase_ok (ms : List (Gap × Quote × List StrItem × Gap × Gap
     simp only [xmembersOk, xmembersPlain, Bool.and_eq_true] at hok hp
     simp only [xmembersErase, membersOk, Bool.and_eq_true]
     refine ⟨⟨?_, ih (g1, q, k, g2, g3, d, g4) (by simp) hok.1.1.2 hp.1.1.2⟩, ihr (fun e he => ih e (by simp [he])) hok.2 hp.2⟩
-    exact List.all_eq_true.mpr (itemsOkFor_ok q k hok.1.1.1.1.1.2)
+    exact hp.1.1.1.1.1.2.2
 
 theorem xdoc_erase_ok : ∀ (x : XDoc), x.ok = true → x.plain = true → x.erase.ok = true := by
   intro x
@@ -163,10 +162,10 @@ theorem xdoc_erase_ok : ∀ (x : XDoc), x.ok = true → x.plain = true → x.era
   | hlit k caps => intro _ _; cases k <;> rfl
   | hnum n => intro hok _; simpa [XDoc.ok, XDoc.erase, Doc.ok] using hok
   | hstr q items =>
-    intro hok _
-    simp only [XDoc.ok] at hok
+    intro _ hp
+    simp only [XDoc.plain, Bool.and_eq_true] at hp
     simp only [XDoc.erase, Doc.ok]
-    exact List.all_eq_true.mpr (itemsOkFor_ok q items hok)
+    exact hp.2
   | harr g es tr ih =>
     intro hok hp
     simp only [XDoc.ok, Bool.and_eq_true] at hok
